@@ -2,13 +2,14 @@
 
 Bounded-exhaustive program/configuration enumeration (E3) against a reference.
 
-*Programs.*  A 14-feature menu (public / ``_protected`` / ``__private`` /
+*Programs.*  A 15-feature menu (public / ``_protected`` / ``__private`` /
 ``_Cls__mangled``-looking module functions, a function imported from a helper
 module, a class re-exported from the helper, a class with public / protected /
 private / dunder / static / class methods, a nested class, lambdas bound to
-module-level names, an ``Enum``, a subclass of an imported base, a property, a
+module-level names, an ``Enum``, a subclass of an imported base, a property, methods and a function wrapped by a
+``functools.wraps`` decorator of the helper module, a
 module-level constant + instance).  Every subset of the menu (quick: every
-subset of size <= 4 plus the full set; thorough: all 2^14) is written as a real
+subset of size <= 4 plus the full set; thorough: all 2^15) is written as a real
 module plus a real helper module under ``ctx.scratch()`` (unique module names
 per case) and handed to the real ``generate_test_cluster``.
 
@@ -43,12 +44,22 @@ VISIBILITIES = ("PUBLIC", "PROTECTED", "ALL")
 
 # --------------------------------------------------------------------------- programs
 HELPER_SRC = '''\
+import functools
+
+
 def hfun(x):
     return x
 
 
 def _hprot(x):
     return x
+
+
+def traced(fn):
+    @functools.wraps(fn)
+    def wrapper(*args, **kwargs):
+        return fn(*args, **kwargs)
+    return wrapper
 
 
 class HCls:
@@ -164,11 +175,39 @@ class _Impl:
     def __step(self):
         return 1
 '''),
+    # definitions wrapped by a well-behaved (functools.wraps) decorator that lives in ANOTHER module: the
+    # wrapper keeps __module__ / __qualname__ of the definition, but its globals are the decorator's
+    ("foreigndeco", '''\
+import contextlib
+
+from {H} import traced
+
+
+class Deco:
+    def __init__(self):
+        self.v = 0
+
+    @traced
+    def wrapped(self):
+        return 1
+
+    @contextlib.contextmanager
+    def managed(self):
+        yield self
+
+    def bare(self):
+        return 2
+
+
+@traced
+def dfun(x):
+    return x
+'''),
 )
 FEATURE_NAMES = tuple(n for n, _ in FEATURES)
 NF = len(FEATURES)
 FULL = (1 << NF) - 1
-USES_HELPER = {"impfn", "reexcls", "subcls"}
+USES_HELPER = {"impfn", "reexcls", "subcls", "foreigndeco"}
 
 
 def feats_of(mask):
